@@ -280,6 +280,13 @@ pub enum DbOp {
     /// (C15, oracle scan_damage only) close, XOR the byte at len * num / den of the newest table
     /// file with `mask`, reopen
     DamageTable(usize, usize, u8),
+    /// n point lookups of one key (seek charging: the first file consulted is charged when two are)
+    GetMany(Vec<u8>, usize),
+    /// let background work finish
+    Sleep(u64),
+    /// (C11, second sentence) release every snapshot and pinned iterator, then compare the table
+    /// files on disk with the current version, sampled for up to 3 s
+    DirCheck,
 }
 
 fn make_batch(ops: &[(Vec<u8>, Option<Vec<u8>>)]) -> crate::Batch {
@@ -310,6 +317,9 @@ pub fn run_history(ops: &[DbOp], keys: &[Vec<u8>]) -> Vec<String> {
             DbOp::ReleaseSnapshot => {}
             DbOp::DamageManifest(_, _) => {}
             DbOp::DamageTable(_, _, _) => {}
+            DbOp::GetMany(k, n) => { for _ in 0..*n { let _ = db.as_ref().unwrap().get(ReadOptions::default(), k); } }
+            DbOp::Sleep(ms) => std::thread::sleep(std::time::Duration::from_millis(*ms)),
+            DbOp::DirCheck => {}
             DbOp::CompactLevel(level, lo, hi) => db.as_ref().unwrap().force_level_compaction(*level, &(lo.as_deref()..hi.as_deref())),
             DbOp::ReopenSmallFiles(n) => {
                 drop(db.take());
@@ -363,11 +373,15 @@ pub struct PinnedScan {
 pub fn run_views_and_pins(ops: &[DbOp], keys: &[Vec<u8>], moves: &str) -> (Vec<View>, Vec<PinnedScan>) {
     PINS.with(|p| p.borrow_mut().clear());
     OPEN_REFUSED.with(|r| *r.borrow_mut() = None);
+    DIRCHECK.with(|r| r.borrow_mut().clear());
     let views = run_views(ops, keys, moves);
     let pins = PINS.with(|p| std::mem::take(&mut *p.borrow_mut()));
     (views, pins)
 }
 thread_local! { static PINS: std::cell::RefCell<Vec<PinnedScan>> = std::cell::RefCell::new(vec![]); }
+thread_local! { pub static DIRCHECK: std::cell::RefCell<Vec<String>> = std::cell::RefCell::new(vec![]); }
+/// what the DirCheck steps of the last `run_views` found
+pub fn dircheck_findings() -> Vec<String> { DIRCHECK.with(|r| r.borrow().clone()) }
 thread_local! { pub static OPEN_REFUSED: std::cell::RefCell<Option<String>> = std::cell::RefCell::new(None); }
 /// Some(error text) if the last `run_views` ended because `open` refused a damaged file
 pub fn open_refused() -> Option<String> { OPEN_REFUSED.with(|r| r.borrow().clone()) }
@@ -413,6 +427,17 @@ pub fn run_views(ops: &[DbOp], keys: &[Vec<u8>], moves: &str) -> Vec<View> {
                 db = Some(DB::open(options.clone()).unwrap());
             }
             DbOp::DamageTable(_, _, _) => {}
+            DbOp::GetMany(k, n) => { for _ in 0..*n { let _ = db.as_ref().unwrap().get(ReadOptions::default(), k); } }
+            DbOp::Sleep(ms) => std::thread::sleep(std::time::Duration::from_millis(*ms)),
+            DbOp::DirCheck => {
+                // nothing may pin an older version any more
+                for (_, s0) in snaps.drain(..) { db.as_ref().unwrap().release_snapshot(s0); }
+                pinned.clear();
+                let fs = options.filesystem_provider();
+                if let Some(msg) = faults::leftovers(db.as_ref().unwrap(), &fs, options.db_path()) {
+                    DIRCHECK.with(|r| r.borrow_mut().push(format!("op{}: {}", i, msg)));
+                }
+            }
             DbOp::DamageManifest(back, mask) => {
                 use std::io::{Read, Write};
                 snaps.clear();
@@ -695,7 +720,7 @@ pub mod faults {
     /// directory holds exactly the table files of the current version, one manifest (the one CURRENT
     /// names) and no temp file.  Sampled for up to 3 s (a compaction may still be finishing); only a
     /// mismatch that persists over all samples is reported.  Write-ahead logs are not judged.
-    fn leftovers(d: &DB, fs: &Arc<dyn FileSystem>, db_path: &str) -> Option<String> {
+    pub fn leftovers(d: &DB, fs: &Arc<dyn FileSystem>, db_path: &str) -> Option<String> {
         use crate::db::DatabaseDescriptor;
         let names = FileNameHandler::new(db_path.to_string());
         let mut last = String::new();
@@ -722,7 +747,7 @@ pub mod faults {
             last = format!("table files not in the current version: {:?}; table files of the current version that are gone: {:?}; temp files: {:?}; manifests other than the one CURRENT names ({}): {:?}", extra, missing, temps, current, stale_manifests);
             std::thread::sleep(std::time::Duration::from_millis(100));
         }
-        Some(format!("after recovery, a further write and a clean reopen the directory still holds, after 3 s without any activity: {}", last))
+        Some(format!("the directory still holds, after 3 s without any activity: {}", last))
     }
 
     /// mode: "transient" (that call only), "sticky" (that call and all later ones), "torn1" / "torn" /
